@@ -394,6 +394,19 @@ def check_structure(root_node, acc, with_tempbox):
       if C.Canon('cfg-exact', sharing=False).go(r) != tree:
         acc.violation(f'{name}:structure-differs:{tag}', 'identity traversal result differs', witness())
     acc.obs('rebuilds_checked')
+  # ---- (g): a stacked registry with an empty middle layer sees what the default one sees
+  if not with_tempbox:
+    try:
+      d0 = daglish.collect_paths_by_id(s, memoizable_only=True)
+      d1 = daglish.collect_paths_by_id(s, memoizable_only=True, registry=vnodes.STACKED_REGISTRY)
+      acc.obs('stacked_registry_compared')
+      if {k: sorted(map(daglish.path_str, v)) for k, v in d0.items()} != \
+          {k: sorted(map(daglish.path_str, v)) for k, v in d1.items()}:
+        acc.violation(f'stacked-registry:paths-differ-from-default-registry:{tag}',
+                      f'{len(d1)} objects reached through the stacked registry, {len(d0)} through '
+                      'the default one', witness())
+    except Exception as e:  # pylint: disable=broad-except
+      acc.violation(f'stacked-registry:raises:{type(e).__name__}:{tag}', repr(e)[:200], witness())
   # ---- (f): the same objects again after **kwargs were re-ordered in place -------------
   # (delete + set moves a **kwargs argument to the end; paths and values must stay in step)
   moved = 0
